@@ -14,6 +14,8 @@ Emit == PrintT("@@CASE " \o ToJson([choice |-> c, schema |-> Valid(c),
                                                     params |-> [j \in 1..Len(RawOrder(Valid(c), Valid(c).ents[i].name)) |-> PyName(RawOrder(Valid(c), Valid(c).ents[i].name)[j].name)]] :
                                                    i \in {j \in 1..Len(Valid(c).ents) : Dev_PyCtorRepeatsSharedAncestor(Valid(c), Valid(c).ents[j].name)}},
                                     pykeywords |-> Dev_PyKeywordUnescaped(Valid(c)),
+                                    pyredecl |-> {[name |-> PyName(Valid(c).ents[i].name), params |-> PyRedeclParams(Valid(c), Valid(c).ents[i].name)] :
+                                                  i \in {j \in 1..Len(Valid(c).ents) : Dev_PyRedeclaredIsOwnParameter(Valid(c), Valid(c).ents[j].name)}},
                                     dict |-> Dictionary(Valid(c)),
                                     devtypes |-> {[name |-> Valid(c).types[i].name,
                                                    dev |-> "Dev_NestedAggrNotRegistered"] :
